@@ -305,6 +305,25 @@ def _rigged_shuffle(cfg):
             r = random.Random(cfg['deck_seed'])
             keep = set(r.sample(ranks, min(4, len(ranks))))
             first = [c for c in cards if str(c.rank.value) in keep]
+        elif rig == 'boardplays':
+            # hold'em family: the five community cards will be a royal flush
+            # (the board plays for everybody) when the engine deals
+            n = cfg['n']
+            want = ['A', 'K', 'Q', 'J', 'T']
+            royal = [c for c in cards if str(c.suit.value) == 's'
+                     and str(c.rank.value) in want]
+            if len(royal) == 5 and len(cards) >= 2 * n + 8:
+                rest = [c for c in cards if c not in royal]
+                slots = [2 * n + 1, 2 * n + 2, 2 * n + 3, 2 * n + 5,
+                         2 * n + 7]
+                out = []
+                ri = iter(royal)
+                it_ = iter(rest)
+                for pos in range(len(cards)):
+                    out.append(next(ri) if pos in slots else next(it_))
+                x.clear()
+                x.extend(out)
+            return
         elif rig == 'suited':
             r = random.Random(cfg['deck_seed'])
             suit = r.choice('cdhs')
@@ -435,6 +454,20 @@ class observing:
     def __exit__(self, *exc):
         for ob in self.obs:
             _OBSERVERS.remove(ob)
+        return False
+
+
+class unobserved:
+    """Suspends the registered observers (for operations on a scratch copy
+    that is not part of the history being judged)."""
+
+    def __enter__(self):
+        self.saved = list(_OBSERVERS)
+        del _OBSERVERS[:]
+        return self
+
+    def __exit__(self, *exc):
+        _OBSERVERS[:] = self.saved
         return False
 
 
@@ -905,6 +938,24 @@ class Interp:
         hole = list(s.hole_cards[i]) if i is not None else []
         unknown = not cards_known(hole)
         m = a % 6
+        mode_ = self.cfg.get('auto_show')
+        final = s.street is s.streets[-1]
+        if mode_ == 'partial_first' and not unknown and not final \
+                and s.mode == Mode.CASH_GAME and len(hole) > 1 and a % 2:
+            # at an all-in showdown before the last street a player tables
+            # only part of his hand (his choice); the later showdown is left
+            # to the engine, which must still table what can win
+            k = 1 + (a // 2) % (len(hole) - 1)
+            if s.can_show_or_muck_hole_cards(tuple(hole[:k])):
+                return (tuple(hole[:k]),)
+        if mode_ == 'with_empty_shows' and not unknown and final \
+                and s.mode == Mode.CASH_GAME and a % 4 == 1 \
+                and self._tables_a_hand(i, ()) \
+                and s.can_show_or_muck_hole_cards(()):
+            # the documented face-down "show": nothing is tabled, the board
+            # plays (only where the board alone is a hand)
+            self.empty_shows = getattr(self, 'empty_shows', 0) + 1
+            return ((),)
         if self.cfg.get('auto_show') and not unknown:
             if self.cfg['auto_show'] == 'any_order' and a % 3:
                 # the engine still decides, but for a tape-chosen player
